@@ -157,16 +157,32 @@ func buildFilter(block *chainhash.Hash, entries [][]byte) *gcs.Filter {
 	return f
 }
 
-// OmittableScript returns an output script of a non-coinbase transaction of
-// n that occurs exactly once among the filter entries (nil if none): a filter
-// without it is provably invalid for the block.
+// OmittableScript returns an output script of a transaction of n that occurs
+// exactly once among the filter entries (nil if none): a filter without it is
+// provably invalid for the block. BIP158 commits to the output scripts of
+// EVERY transaction, the coinbase included (only its input has no previous
+// output script), so for every other block (by its hash) the coinbase's
+// payout script is the one left out when it is unique.
 func OmittableScript(n *chaingen.Node) []byte {
-	if n.Block == nil || len(n.Block.Transactions) < 2 {
+	if n.Block == nil || len(n.Block.Transactions) == 0 {
 		return nil
 	}
 	count := map[string]int{}
 	for _, e := range FilterEntries(n) {
 		count[string(e)]++
+	}
+	if n.Hash[0]%2 == 0 || len(n.Block.Transactions) < 2 {
+		for _, o := range n.Block.Transactions[0].TxOut {
+			if len(o.PkScript) == 0 || o.PkScript[0] == txscript.OP_RETURN {
+				continue
+			}
+			if count[string(o.PkScript)] == 1 {
+				return o.PkScript
+			}
+		}
+	}
+	if len(n.Block.Transactions) < 2 {
+		return nil
 	}
 	// Prefer a script that does not parse (still committed to by BIP158).
 	var first []byte
